@@ -373,6 +373,17 @@ func (g *gen) gcCase(class string) *Case {
 		if g.r.Intn(3) == 0 {
 			c.Conc = 2 + g.r.Intn(3)
 		}
+	case "fault": // an RPC of the first pass is answered with an error / the context is cancelled; a retry pass follows
+		keys = g.keys(6 + g.r.Intn(10))
+		ntxn = 4 + g.r.Intn(8)
+		c.Splits = g.splits(g.r.Intn(5), keys)
+		c.Limit = uint32(1 + g.r.Intn(4))
+		c.RPT = 1 + g.r.Intn(3)
+		if g.r.Intn(3) == 0 {
+			c.Conc = 2 + g.r.Intn(4)
+		}
+		kinds := []string{"scan_keyerr", "resolve_keyerr", "resolve_keyerr", "check_keyerr", "check_keyerr", "pessrb_keyerr", "cancel", "cancel"}
+		c.Faults = []Fault{{At: 1 + g.r.Intn(5), Kind: kinds[g.r.Intn(len(kinds))]}}
 	case "rawscan": // the store's own ScanLock answers (no N1): only the property oracles apply
 		c.Raw = true
 		keys = g.keys(6 + g.r.Intn(12))
@@ -448,6 +459,9 @@ func (g *gen) gcCase(class string) *Case {
 	if class == "full" && g.r.Intn(2) == 0 && c.SP > 12 {
 		c.Barrier = c.SP - uint64(1+g.r.Intn(10))
 		c.ReadTS = append(c.ReadTS, c.Barrier, c.Barrier+1)
+	}
+	if class == "fault" {
+		c.SP2 = c.SP // the retry
 	}
 	if class == "twopass" {
 		// a second population (later timestamps, other keys) written after the first pass; the second pass also meets the
